@@ -214,10 +214,14 @@ def explore(ob, known, seed=0, max_witness=2000):
                 witnesses.append((cargs, oc))
             return res["cex"] is not None
 
+    import vf.sym as _sym
+
+    _sym._TRACING[0] = True
     try:
         explore_paths(run_path, sig, opts, root, done)
     except BaseException as e:  # NotDeterministic etc. are BaseException in CrossHair
         res["error"] = f"{type(e).__name__}: {e}"[:800]
+    _sym._TRACING[0] = False
     exhausted, status = False, None
     try:
         node = root.child
